@@ -27,6 +27,19 @@ template<class PV, class W> void check_addr(std::string const& K, PV const& pv, 
 	count("elements_compared", m.n()); (void)D;
 }
 
+// backward traversal of a lazily transformed view: --it, end() - n, it -= n on the leading iterators and on elements() reach f(source element) of the position they stand for
+template<class PV, class Val> void backward_walk(std::string const& K, PV&& pv, MV const& m, Val&& val) {
+	constexpr int D = rank_of<PV>; if(m.has_zero()) return; L const s0 = m.size[0]; std::vector<L> ix(std::size_t(D), 0);
+	auto lead = [&](auto const& it, L i, char const* how) { ix.assign(std::size_t(D), 0); ix[0] = i; auto const want = val(m.lin(ix)); bool ok;
+		if constexpr(D == 1) { ok = (*it == want); } else { std::vector<L> z(std::size_t(D - 1), 0); ok = (brk(*it, z) == want); }
+		if(!ok) violation(K + "backward:" + how, std::string("the leading iterator reached by ") + how + " at position " + std::to_string(i) + " does not yield f(source element at that index)"); return ok; };
+	{ auto it = pv.end(); bool ok = true; for(L i = s0 - 1; i >= 0 && ok; --i) { --it; ok = lead(it, i, "--it"); } if(ok && !(it == pv.begin())) violation(K + "backward:begin", "size() decrements of end() do not reach begin()"); }
+	for(L n = 1; n <= std::min<L>(s0, 3); ++n) { auto it = pv.end() - n; lead(it, s0 - n, "end()-n"); auto jt = pv.end(); jt -= n; lead(jt, s0 - n, "it-=n"); }
+	{ auto&& els = pv.elements(); L const N = m.n(); auto e = els.end(); for(L k = N - 1; k >= std::max<L>(0, N - 5); --k) { --e; if(!(*e == val(k))) { violation(K + "backward:elements:--it", "the elements() iterator decremented to position " + std::to_string(k) + " does not yield f(source element)"); break; } }
+		auto e2 = els.end(); e2 -= N; if(!(e2 == els.begin())) violation(K + "backward:elements:-=", "elements().end() -= num_elements() is not begin()"); else if(!(*e2 == val(0))) violation(K + "backward:elements:-=", "elements().end() - num_elements() does not yield f(first element)"); }
+	count("backward-walks");
+}
+
 struct ProjVis {
 	E* base; L rootn; Rng* g;
 	template<class V> void at(V const&, MV const&, char const*) {}
@@ -44,10 +57,10 @@ struct ProjVis {
 		case 0: { auto&& pv = v.template member_cast<int>(&P::b); check_addr(K, pv, m, [&](L k) { return static_cast<void const*>(&src(k).b); });
 			if constexpr(is_mutable_view<V>) { L k = g->below(N); m.unlin(k, ix); brk(pv, ix) = 4242; if(src(k).b != 4242) violation(K + "write-through", "a write through member_cast did not land in the source element"); } break; }
 		case 1: { auto&& pv = std::as_const(v).template member_cast<double>(&P::a); check_addr(K, pv, m, [&](L k) { return static_cast<void const*>(&src(k).a); }); break; }
-		case 2: { auto&& pv = v.element_transformed(&P::c); if(tuple_to_vec(pv.sizes()) != m.size) violation(K + "extents", "sizes differ"); for(L k = 0; k < N; ++k) { m.unlin(k, ix); if(brk(pv, ix) != src(k).c) violation(K + "value", "element_transformed(member) value differs"); src(k).c += 1000; if(brk(pv, ix) != src(k).c) violation(K + "not-lazy", "element_transformed does not reflect a later change of the source element"); } break; }
+		case 2: { auto&& pv = v.element_transformed(&P::c); if(tuple_to_vec(pv.sizes()) != m.size) violation(K + "extents", "sizes differ"); for(L k = 0; k < N; ++k) { m.unlin(k, ix); if(brk(pv, ix) != src(k).c) violation(K + "value", "element_transformed(member) value differs"); src(k).c += 1000; if(brk(pv, ix) != src(k).c) violation(K + "not-lazy", "element_transformed does not reflect a later change of the source element"); } backward_walk(K, pv, m, [&](L k) { return src(k).c; }); break; }
 		case 3: { auto f = [](P const& p) { return long(p.b) * 2 + 1; }; auto&& pv = std::as_const(v).element_transformed(decltype(f)(f)); if(tuple_to_vec(pv.sizes()) != m.size) violation(K + "extents", "sizes differ");
 			for(L k = 0; k < N; ++k) { m.unlin(k, ix); if(brk(pv, ix) != f(src(k))) violation(K + "value", "element_transformed(f) != f(source element)"); src(k).b -= 7; if(brk(pv, ix) != f(src(k))) violation(K + "not-lazy", "element_transformed is not evaluated at access time"); }
-			multi::array<long, D> C(pv); for(L k = 0; k < N; ++k) if(C.data_elements()[k] != f(src(k))) violation(K + "array-from-projection", "array constructed from the transformed view differs element-wise"); break; }
+			multi::array<long, D> C(pv); for(L k = 0; k < N; ++k) if(C.data_elements()[k] != f(src(k))) violation(K + "array-from-projection", "array constructed from the transformed view differs element-wise"); backward_walk(K, pv, m, [&](L k) { return f(src(k)); }); break; }
 		case 4: { auto&& pv = std::as_const(v).template member_cast<int>(&P::b); multi::array<int, D> C(pv); if(tuple_to_vec(C.sizes()) != m.size) violation(K + "extents", "array constructed from member_cast has other extents"); for(L k = 0; k < N; ++k) if(C.data_elements()[k] != src(k).b) violation(K + "value", "array constructed from member_cast differs element-wise");
 			multi::array<double, D> Cd(pv); for(L k = 0; k < N; ++k) if(Cd.data_elements()[k] != double(src(k).b)) violation(K + "converted-value", "array<double> constructed from a member_cast<int> view is not converted element by element"); break; }
 		default: { auto&& pv = std::as_const(v).template member_cast<int>(&P::b); auto&& rv = pv.rotated(); MV rm = m_rotated(m); check_addr(K, rv, rm, [&](L k) { return static_cast<void const*>(&base[rm.off[std::size_t(k)]].b); }); break; }
